@@ -25,9 +25,10 @@ import (
 // Go).  Only refutations that reproduce are reported as replayed.
 
 type smtSession struct {
-	cmd *exec.Cmd
-	in  io.WriteCloser
-	out *bufio.Reader
+	cmd   *exec.Cmd
+	in    io.WriteCloser
+	out   *bufio.Reader
+	cache map[string]string
 }
 
 func startZ3(query string, secs int) (*smtSession, string, error) {
@@ -64,6 +65,39 @@ func (s *smtSession) getValues(terms []string) ([]string, error) {
 	if len(terms) == 0 {
 		return nil, nil
 	}
+	if s.cache == nil {
+		s.cache = map[string]string{}
+	}
+	var missing []string
+	seen := map[string]bool{}
+	for _, t := range terms {
+		if _, ok := s.cache[t]; !ok && !seen[t] {
+			missing = append(missing, t)
+			seen[t] = true
+		}
+	}
+	for len(missing) > 0 {
+		n := len(missing)
+		if n > 2000 {
+			n = 2000
+		}
+		vals, err := s.getValuesRaw(missing[:n])
+		if err != nil {
+			return nil, err
+		}
+		for i, v := range vals {
+			s.cache[missing[i]] = v
+		}
+		missing = missing[n:]
+	}
+	out := make([]string, len(terms))
+	for i, t := range terms {
+		out[i] = s.cache[t]
+	}
+	return out, nil
+}
+
+func (s *smtSession) getValuesRaw(terms []string) ([]string, error) {
 	io.WriteString(s.in, "(get-value ("+strings.Join(terms, " ")+"))\n")
 	// read one balanced s-expression
 	var sb strings.Builder
@@ -335,16 +369,30 @@ func (g *goBuilder) value(v *Val, t types.Type) (string, error) {
 		if ref == 0 {
 			return "nil", nil
 		}
-		if !ok || ln < 0 || ln > 1<<16 {
+		if !ok || ln < 0 || ln > 1<<17 {
 			return "", fmt.Errorf("slice too long for replay (%s)", vals[2])
 		}
 		et := u.Elem()
 		var elems []string
+		var evs []*Val
+		var pre []string
+		g.f.noFacts++
 		for i := int64(0); i < ln; i++ {
 			loc := &PtrInfo{Heap: elemHeapPrefix(et), Base: []string{v.Fs[0].T, arith("+", v.Fs[1].T, num(i))}, Ty: et}
 			g.f.pure++
 			ev := g.f.load(g.f.entry, &Val{K: KPtr, Ty: types.NewPointer(et), P: loc}, et)
 			g.f.pure--
+			evs = append(evs, ev)
+			if ts, err := leafTerms(ev); err == nil {
+				pre = append(pre, ts...)
+			}
+		}
+		g.f.noFacts--
+		if len(pre) > 0 {
+			g.s.getValues(pre) // one batch: fills the cache
+		}
+		for i := int64(0); i < ln; i++ {
+			ev := evs[i]
 			s, err := g.value(ev, et)
 			if err != nil {
 				return "", err
@@ -665,7 +713,7 @@ func replayObligation(o *Obligation, eng *Engine, repo string) {
 		bound    int64
 	}
 	var attempts []attempt
-	for _, b := range []int64{24, 300, 5000} {
+	for _, b := range []int64{24, 300, 5000, 70000} {
 		attempts = append(attempts, attempt{false, b}, attempt{true, b})
 	}
 	for _, at := range attempts {
